@@ -362,6 +362,16 @@ def _text(rng):
                            "bis 5.", "morning", "8pm", "2 nights", "to 1.5.2020", "für 1 nacht",
                            "from 8 to 9"])
         return rng.choice(["%s %s" % (d, tail), "%s %s" % (tail, d), d])
+    if r < 0.62:
+        # clock ranges with arbitrary ends (equal hours, 12:xx, 0:xx, 23:xx, reversed minutes)
+        def ck():
+            h = rng.choice([0, 1, 9, 11, 12, 12, 13, 23, rng.randint(0, 23)])
+            m = rng.choice([0, 10, 15, 30, 45, 50, 59])
+            return rng.choice(["%d:%02d", "%d.%02d", "%02d:%02d", "%dh%02d"]) % (h, m) \
+                if rng.random() < 0.8 else str(h)
+        j = rng.choice([" - ", "-", " to ", " bis ", " until ", " und "])
+        pre = rng.choice(["", "", "from ", "von ", "between ", "tomorrow ", "12.12.2020 "])
+        return pre + ck() + j + ck()
     if r < 0.66:
         # stacked part-of-day modifiers
         k = rng.randint(2, 5)
